@@ -39,6 +39,14 @@ def P(bounds_quick, bounds_thorough, outside, assumptions=(), **kw):
 
 
 PROPS = {
+    "C01": P("shapes plain (archetypes {A},{A,B},{B,T},{A,P}; 3 removal variants: swapped row, swapped pointer row, last row) and relation (2 parents, 5 children over R1/R2 in 4 tables; variants: freed table + recycled parent id, emptied tables) built by the real API with capacity 1, component IDs 60..65 (straddling the first mask word), all growable slices clipped to len (every append reallocates); EVERY component value symbolic; one operation NewEntityRel/AddRel/Remove/Exchange/RemoveEntity/CopyEntity/Map1.Set with every entity and every 1-2 component list; after it: ghost model (mask, values, targets, liveness of every tracked handle) agrees, new components read zero, INV (index bijection, tables, archetypes, relation indices, zero rows) holds",
+             "quick plus pad 0/124/250 (top IDs 250..255), capacity 2, all shape variants, and all two-operation histories from both shapes",
+             "more than 12 entities / 2 operations after the shape; typed mappers of arity > 2 (see C14); batch forms (C06)",
+             ["INV as written in harness/world.go characterises consistent storage; the ghost model update is the documented effect (DESIGN.md A.1)"]),
+    "C04": P("relation shape as C01: SetRelations and RemoveEntity of every tracked entity (parents, children, dead handles) in 3 variants incl. emptied relation tables and a recycled parent id; relation index invariant (I-rel) and ghost targets checked after",
+             "all 5 variants, pads 126/190, two-operation histories incl. Shrink", "RemoveEntities batch with several targets (C06 harness); chains deeper than 1"),
+    "C10": P("every rejected call of the C01/C04 step harnesses (dead entity: never reused and recycled id; duplicate / already present / missing component; dead or recycled relation target; exchange of same component) must panic and leave model, INV and lock state unchanged",
+             "same", "batch operations (lock state covered by C07); *Unchecked accessors; typed arities > 2"),
     "C02": P("entity pool of 4 and 6 slots (2 reserved), every id/generation/free-chain content satisfying I-pool, tight slice capacity; one step of Get / Recycle (+ re-issue) with an arbitrary previously issued handle as observer; Recycle of reserved ids",
              "same", "generation wrap after 2^32 recycles of one id (assumed not to happen); forged handles with ids never issued; world-level creators are covered by C01/C06 harnesses",
              ["I-pool with ghost alive/rank/maxGen describes reachable pools"]),
@@ -47,7 +55,7 @@ PROPS = {
     "C08": P("each of the 9 dispatchers (FireCreateEntity, FireRemoveEntity, FireCreateEntityRel, FireRemoveEntityRel, FireAdd, FireRemove, FireSet, FireSetRelations, FireCustom) with 2 observers whose three 256-bit masks and flags are symbolic, aggregates symbolic under I-obs, earlyOut symbolic, transition masks fully symbolic; RemoveObserver at every position of 2 observers; AddObserver onto an arbitrary 1-observer state for 9 event types x 32 observer specs",
              "3 observers per dispatcher; RemoveObserver with 3 observers", "more than 3 observers per event type; observer order",
              ["doc_pred is the rule of docs/content/events (all observed components affected together; With/Without against the entity composition)"]),
-    "C15": P("capPow2, CanShrink/Shrink target and Extend growth arithmetic for ALL uint32 len/cap/minCapacity up to 2^31", "same", "capacities above 2^31 (uint32 overflow of capPow2)"),
+    "C15": P("Shrink from both shapes (capacity 2, emptied relation tables): model, INV (incl. relation indices) unchanged, reports no remaining work (clock assumed < 1h per call); capPow2, CanShrink/Shrink target and Extend growth arithmetic for ALL uint32 len/cap/minCapacity up to 2^31", "same", "capacities above 2^31 (uint32 overflow of capPow2)"),
     "C16": P("observerManager.Reset from an arbitrary I-obs state with 1 (quick) or 2 observers, for EVERY event type 0..255", "same plus 2 observers", "see DESIGN"),
     "C17": P("MarshalBinary/AppendBinary/UnmarshalBinary for all 2^64 handles; inputs of every length 0..12 except 8 rejected with the entity unchanged (real encoding/binary SSA executed)", "same", "JSON codec (encoding/json not modelled); inputs longer than 12 bytes"),
     "C18": P("registry step (known id stable, new id = count, overflow panics without consuming, unregisterLast) for counts 0..2 and max-2..max; toTypes for counts 0..3 and {64,65,255,256} with masks {lowest, one symbolic position, highest}; locked registration; Resources as a map for all id pairs",
